@@ -203,6 +203,41 @@ def cut_work(arg):
     return outcome, viols
 
 
+def kick_work(arg):
+    """the SERVER closes the session (a handler kicks the client); the client learns it (DISCONNECTING) and the server
+    is silent from then on: the client still reports DROPPED 5 s after the last datagram it accepted"""
+    frame, wait = arg
+    viols = {}
+    wit = {"part": "kick", "arg": list(arg)}
+
+    def flag(oracle, sig, msg):
+        viols.setdefault((oracle, sig), [0, wit, msg])[0] += 1
+    w = World(dt=frame, start_time=1024.0)
+    try:
+        w.run_until_connected(limit=int(3.0 / frame))
+        w.run(int(0.3 / frame) + wait)
+        c = w.clients[0].conn
+        w.server_conn(0).disconnect()
+        w.run(int(0.3 / frame))
+        st0 = c.status
+        dropped_at = None
+        for i in range(int(6.5 / frame)):
+            w.tick()
+            if c.status == ConnectionStatus.DROPPED and dropped_at is None:
+                dropped_at = (w.vt.now, c.last_recv_time)
+                break
+        if st0 in (ConnectionStatus.DISCONNECTING, ConnectionStatus.CONNECTED, ConnectionStatus.DISCONNECTED) and c.last_recv_time > 0:
+            if dropped_at is None:
+                flag("client-dropped", "after the server closed the session and went silent the client never reports DROPPED", "status %s (was %s right after the kick), last receipt %.3f s ago" % (c.status, st0, w.vt.now - c.last_recv_time))
+            else:
+                late = dropped_at[0] - dropped_at[1]
+                if late <= 5.0 - EPS or late > 5.0 + frame + EPS:
+                    flag("client-dropped", "after a server-side close the client reports DROPPED at the wrong time", "%.4f s after the last receipt" % late)
+    finally:
+        w.close()
+    return tuple(arg), viols
+
+
 def emission_work(arg):
     """'each side emits a datagram at least once per keep-alive interval plus one send tick' when the acks stay away for a
     long time although nobody is dead: a peer with a much longer keep-alive interval, or a one-way outage shorter than
@@ -558,6 +593,9 @@ def run(tier, seed):
     res = core.pmap("checks.c12", "client_setter_work", cs_jobs)
     for r in res:
         fold(r[1])
+    kick_jobs = [(1.0 / 64, 0), (1.0 / 64, 1), (1.0 / 50, 0), (1.0 / 60, 3)]
+    for r in core.pmap("checks.c12", "kick_work", kick_jobs):
+        fold(r[1])
     em_jobs = [(0.05, 4.0, 3.0, 4.0, 1.0 / 64, None), (0.1, 10.0, 0.1, 30.0, 1.0 / 64, ("s2c", 4.5)), (0.1, 10.0, 0.1, 30.0, 1.0 / 50, ("c2s", 4.5)),
                (0.05, 6.0, 0.05, 30.0, 1.0 / 64, ("s2c", 3.0)), (2.0, 1.0, 0.05, 30.0, 1.0 / 64, None)]
     for r in core.pmap("checks.c12", "emission_work", em_jobs):
@@ -575,7 +613,7 @@ def run(tier, seed):
         fold(r[1])
     for (oracle, sig), (cnt, wit, msg) in sorted(acc.items()):
         rep.add_violation(core.Violation(oracle, sig, wit, "%s [%d cases]" % (msg[:400], cnt)))
-    n_exec = len(idle_jobs) + st.executions + len(cut_jobs) + len(con_jobs) + len(cs_jobs) + len(ss_jobs) + len(kc_jobs) + len(em_jobs)
+    n_exec = len(idle_jobs) + st.executions + len(cut_jobs) + len(con_jobs) + len(cs_jobs) + len(ss_jobs) + len(kc_jobs) + len(em_jobs) + len(kick_jobs)
     rep.coverage = {
         "states": idle_states + st.points, "transitions": idle_states + st.steps, "traces_validated_against_impl": n_exec,
         "idle_configurations": len(idle_jobs), "idle_closed_cycles": len(closed), "idle_cycle_rows": closed[:40], "idle_horizon_only": open_rows,
@@ -598,6 +636,8 @@ def replay(witness):
     if part == "idle":
         r = idle_work((witness["keep_alive"], witness["connection_timeout"], witness["frame"], 30.0, witness.get("latency_ticks", 1)))
         v = r[2]
+    elif part == "kick":
+        v = kick_work(tuple(witness["arg"]))[1]
     elif part == "emission":
         a = witness["arg"]
         v = emission_work((a[0], a[1], a[2], a[3], a[4], tuple(a[5]) if a[5] else None))[1]
